@@ -24,6 +24,9 @@ var verifC05Src = []string{
 	"insert into t select id, b, a from t where a < @x",        // 10
 	"delete from t where a is null or a = @x",                  // 11
 	"update t set b = a where b < a",                           // 12
+	"replace into t (a, b) using (a) values (@x, @p)",          // 13: the key may match several rows or none
+	"if 1 = 1 then update t set b = @p where a < @x; end if;",  // 14: statement inside a block, table declared outside
+	"if 1 = 1 then insert into t values (@p, @q, @r); delete from t where a < @x; end if;", // 15
 }
 
 var verifC05Stmts []parser.Statement
@@ -173,6 +176,35 @@ func VerifC05Statements() {
 				want++
 			}
 		}
+	case 13:
+		want = 0
+		for i := range ref {
+			if !a[i].null && a[i].v == x {
+				ref[i].cells[2] = iv(p)
+				want++
+			}
+		}
+		if want == 0 {
+			ref = append(ref, refRow{[]verifCellSpec{null, iv(x), iv(p)}, -1})
+			want = 1
+		}
+	case 14:
+		want = -1
+		for i := range ref {
+			if lt(a[i], x) {
+				ref[i].cells[2] = iv(p)
+			}
+		}
+	case 15:
+		want = -1
+		ref = append(ref, refRow{[]verifCellSpec{iv(p), iv(q), iv(r)}, -1})
+		var keep []refRow
+		for _, rr := range ref {
+			if !lt(rr.cells[1], x) {
+				keep = append(keep, rr)
+			}
+		}
+		ref = keep
 	case 12:
 		want = 0
 		for i := range ref {
